@@ -23,6 +23,8 @@ mod preload_unverified_blocks_channel;
 #[cfg(test)]
 mod tests;
 mod utils;
+#[cfg(feature = "verif-hooks")]
+pub mod verif;
 pub mod verify;
 
 pub use chain_controller::ChainController;
